@@ -35,6 +35,10 @@ def jobs(tier):
             for b in PROBES:
                 js.append(dict(name=f"chunks[{'+'.join(a)}|{'+'.join(b)},L={L}]", fn="chunks", args=[[list(a), list(b)], L, list(SURPLUS)],
                                collect_models=1, expect=["last chunk consumed exactly"]))
+    # size thresholds: a chunk that ends far from where it starts (seed C06h: a break scan that works in widening windows)
+    for L in ((66, 130) if q else (33, 66, 100, 130, 200, 260)):
+        js.append(dict(name=f"long[char+string|short+string|int,L={L}]", fn="chunks", args=[[["char", "string"], ["short", "string"], ["int"]], L, list(SURPLUS)],
+                       collect_models=1, expect=["last chunk consumed exactly"]))
     if q:
         small = [("char",), ("short", "string"), ("fixed_string",), ()]
         for a in small:
